@@ -16,12 +16,16 @@ SG = [
  ("double_be", "double64.c", "double64_init", "(SF_FORMAT_RAW|SF_FORMAT_DOUBLE)", 8, 1),
  ("ulaw", "ulaw.c", "ulaw_init", "(SF_FORMAT_RAW|SF_FORMAT_ULAW)", 1, 0),
  ("alaw", "alaw.c", "alaw_init", "(SF_FORMAT_RAW|SF_FORMAT_ALAW)", 1, 0),
+ ("dpcm16", "xi.c", "dpcm_init", "(SF_FORMAT_XI|SF_FORMAT_DPCM_16)", 2, 0),
+ ("dpcm8", "xi.c", "dpcm_init", "(SF_FORMAT_XI|SF_FORMAT_DPCM_8)", 1, 0),
 ]
 TYPES = [("short", "short", 2, 0), ("int", "int", 4, 0), ("float", "float", 4, 1), ("double", "double", 8, 1)]
 
 def lossless(tag, bw, t, tsize, isf):
     """(is the write->read round trip the identity for this file encoding / API type?, mask expression)"""
-    if tag.startswith("pcm"):
+    if tag == "dpcm8":
+        return None
+    if tag.startswith("pcm") or tag == "dpcm16":
         if isf: return None
         tb = tsize
         if bw >= tb: return "(x)"
@@ -34,7 +38,7 @@ def lossless(tag, bw, t, tsize, isf):
         return "(x)" if t in ("double", "float") else None
     return None
 
-QUICK_CFG = ("pcm_u8", "pcm_16le", "pcm_24be", "pcm_32le", "float_le", "double_be", "ulaw", "alaw")
+QUICK_CFG = ("pcm_u8", "pcm_16le", "pcm_24be", "pcm_32le", "float_le", "double_be", "ulaw", "alaw", "dpcm16")
 
 def is_quick(tag, t, sel):
     """quick tier = the combinations measured to finish in well under two minutes; float<->int conversions through the
@@ -43,7 +47,7 @@ def is_quick(tag, t, sel):
         return False
     if sel == "SEL_WR" and tag in ("ulaw", "double_be"):
         return False        # 250-370 s each (measured); A-law and float32 keep the quick-tier coverage of these paths
-    if tag.startswith("pcm") or tag in ("ulaw", "alaw"):
+    if tag.startswith("pcm") or tag in ("ulaw", "alaw", "dpcm16"):
         return t in ("short", "int")
     if tag.startswith("float"):
         return t == "float"
@@ -60,12 +64,15 @@ def sg_harnesses(sel_list=("SEL_RD", "SEL_WR"), quick_types=None):
               for probe in (0, 1):
                 if probe and not (tag == "alaw" and t == "float" and sel == "SEL_WR"):
                     continue
-                LM = 2 if tag in ("ulaw", "alaw") else 5     # the 8193-entry G.711 tables with a symbolic index are the cost
+                # request bound: the 8193-entry G.711 tables with a symbolic index and float<->int conversions are the cost drivers
+                LM = 2 if tag in ("ulaw", "alaw") else (3 if (isf or tag.startswith(("float", "double"))) else 5)
                 d = {"CODEC_FILE": '"%s"' % f, "CODEC_INIT": init, "FMT": fmt, "BW": bw, "BE": be, "T": t, "TN": tn, "NDT": tn,
                      "IS_FLOAT_T": isf, sel: 1, "LMAX": LM, "MF_CAP": LM * bw + 3, "MF_MAXIO": LM * 8, "MF_NFILES": 2,
                      "LIBSNDFILE_VERIF_BUFFER_LEN": 8}
                 if tag in ("ulaw", "alaw"):
                     d["IS_G711"] = 1
+                if tag.startswith("dpcm"):
+                    d["CODEC_DATA_TYPE"] = "XI_PRIVATE"
                 if probe:
                     d["PROBE_g711range"] = 1
                 m = lossless(tag, bw, t, tsize, isf)
@@ -79,5 +86,5 @@ def sg_harnesses(sel_list=("SEL_RD", "SEL_WR"), quick_types=None):
                              checks="mem", include_env=("log_stub", "memfile", "memset_model"), timeout=600, solver="cadical" if isf else "default",
                              tiers=("quick", "thorough") if is_quick(tag, t, sel) else ("thorough",),
                              functions=[init, "%s read_%s/write_%s entry points and array kernels" % (f, tn, tn)],
-                             bounds="1 channel, request 1..5 items over an 8-byte staging buffer (crosses staging boundaries for every width > 1 byte), split point j symbolic, file length symbolic (incl. truncated mid-sample), all sample values"))
+                             bounds="1 channel, request 1..%d items over an 8-byte staging buffer (crosses staging boundaries for every width > 1 byte), split point j symbolic, file length symbolic (incl. truncated mid-sample), all sample values" % LM))
     return out
